@@ -110,7 +110,8 @@ def step (s0 : MState) (j : Json) : MState × Json :=
       let (sched, verdict) := mkSched (orderOf j) m (chainR p)
       let (s1, x) := inplace sched s op p operand
       let s2 := { s1 with faultIn := none }
-      (s2, obs s2 x [("sched", .str verdict), ("hyp", hypJson s2 m p)])
+      (s2, obs s2 x [("sched", .str verdict), ("hyp", hypJson s2 m p),
+                     ("scope", .bool (callScopeB sched s (.inplace op p operand)))])
     | _, _, _ => bad s "iop"
   | some "genfun" =>
     match fieldArr j "args" with
